@@ -613,5 +613,10 @@ def run(chk):
     chk.mod(U.LAYOUT)
     flow_check(chk, prog, U.LAYOUT, "LayoutHandler")
     flow_check(chk, prog, U.LAYOUT, "LayoutSwapper", extra_final=manager_final)
+    from .C02 import derived_state
+    derived_state(chk)
+    # "layout changes never alter the field": the handler's element placement (same rules as C01)
+    from .C01 import handler_contract
+    handler_contract(chk, chk.mod(U.LAYOUT))
     chk.floor("T", 30)
     chk.floor("T9-driver-save-protocol", 3)
